@@ -318,6 +318,8 @@ fn run_unit<P: Property>(
     let cfg = Config {
         cases: u.cases,
         max_shrink_iters: p.max_shrink_iters(),
+        // minimisation is best effort: the verdict is fixed by the first failing case
+        max_shrink_time: 120_000,
         failure_persistence: None,
         rng_seed: RngSeed::Fixed(seed_for(seed, p.id(), u.suite, u.stratum, u.index)),
         max_global_rejects: 65536,
